@@ -212,7 +212,10 @@ class Ctx:
                 self.obls.append({"name": name, "status": "refuted", "backend": "z3", "s": dt, "detail": detail,
                                   "model": self.model_inputs(s.model()), "formula": str(z3.simplify(g))[:600]})
             else:
-                self.obls.append({"name": name, "status": "undecided", "backend": "z3", "s": dt,
+                cand = None
+                for hyps, gg in parts:
+                    cand = cand or self.candidate(list(hyps) + [z3.Not(gg)])
+                self.obls.append({"name": name, "status": "undecided", "backend": "z3", "s": dt, "candidate": cand,
                                   "detail": detail + " reason=" + s.reason_unknown() + " goal=" + str(g)[:300]})
             return False
         r, s = self._check([z3.Not(f)], self.timeout_ms)
@@ -225,9 +228,25 @@ class Ctx:
             self.obls.append({"name": name, "status": "refuted", "backend": "z3", "s": dt, "detail": detail,
                               "model": self.model_inputs(m), "formula": str(z3.simplify(f))[:600]})
             return False
-        self.obls.append({"name": name, "status": "undecided", "backend": "z3", "s": dt,
+        self.obls.append({"name": name, "status": "undecided", "backend": "z3", "s": dt, "candidate": self.candidate([z3.Not(f)]),
                           "detail": detail + " reason=" + s.reason_unknown()})
         return False
+
+    def candidate(self, negated_goal_parts):
+        """a CANDIDATE counter-model for an obligation z3 could not decide: the quantifier-free part of the path condition together with
+        the negated goal is asked for a model (fewer assumptions than the real query, so the model may be spurious - it is only ever used
+        as an input to a native replay of the real code, never as a verdict)"""
+        try:
+            s2 = z3.Solver()
+            s2.set("timeout", 3000)
+            for p in list(self.pc) + list(negated_goal_parts):
+                if not _has_quantifier(p) and not _mentions_decl(p, "TR"):
+                    s2.add(p)
+            if s2.check() == z3.sat:
+                return self.model_inputs(s2.model())
+        except Exception:
+            pass
+        return None
 
     def feasible(self):
         r, _ = self._check([], self.feas_ms)
